@@ -571,7 +571,20 @@ class _Frame:
     def s_AugAssign(self, st):
         cur = self.ev(_load(st.target))
         v = self.ev(st.value)
-        self.assign(st.target, self.binop(type(st.op), cur, v, st))
+        res = self.binop(type(st.op), cur, v, st)
+        if isinstance(cur, XArray) and isinstance(res, XArray) and res.shape == cur.shape and not isinstance(st.target, ast.Subscript) and not isinstance(st.op, ast.MatMult):
+            # numpy semantics: `a += b` on an ndarray writes INTO a (every other name bound to that array sees the change)
+            try:
+                for x in res.data:
+                    cur._check_kind(x)
+            except XArrayError:
+                raise
+            flat = res.ravel().data if res.order is not None else res.data
+            if cur.order is None:
+                cur.data[:] = list(flat)
+                self.assign(st.target, cur)
+                return
+        self.assign(st.target, res)
 
     def s_If(self, st):
         t = self.truth(self.ev(st.test), st.test)
@@ -1136,6 +1149,12 @@ class _Frame:
                 return getattr(obj, attr)
             if attr in ("reshape", "ravel", "flatten", "transpose", "copy", "sum", "mean", "tolist", "max", "min"):
                 return getattr(obj, attr)
+            if attr == "tobytes":
+                return lambda *a, **k: ("bytes", obj.shape, tuple(str(exact(v)) for v in (obj.ravel().data if obj.order is not None else obj.data)))
+            if attr == "nbytes":
+                return 8 * obj.size
+            if attr == "item":
+                return lambda *a: obj.data[0] if not a else obj[tuple(a) if len(a) > 1 else a[0]]
             if attr == "astype":
                 return lambda t=None, *a, **k: XArray(obj.shape, list(obj.data), _kind_of(t))
             if attr == "dtype":
@@ -1218,7 +1237,10 @@ class _Frame:
         f = self.I.repo.lookup_method(obj.cls, name)
         if f is not None:
             if f.is_property():
-                return self.I.call_function(f, [], self_obj=obj)
+                v = self.I.call_function(f, [], self_obj=obj)
+                if f.is_cached_property():
+                    obj.attrs[name] = v  # functools.cached_property: the value is kept in the instance dictionary
+                return v
             if f.is_static():
                 return _Bound(self.I, f, None)
             return _Bound(self.I, f, obj)
@@ -1316,6 +1338,10 @@ class _Frame:
         if isinstance(fn, _Bound):
             return fn(*args, **kwargs)
         if isinstance(fn, FuncInfo):
+            if "singledispatch" in [d.split(".")[-1] for d in fn.decorators] and args:
+                impl = self._singledispatch(fn, args[0])
+                if impl is not None:
+                    return impl(*args, **kwargs)
             return self.I.call_function(fn, args, kwargs)
         if fn in (list, tuple, set, sorted, len) and len(args) == 1 and isinstance(args[0], ClassInfo) and args[0].is_enum():
             args = [_enum_iter(args[0])]  # list(EnumClass): its members in definition order
@@ -1367,6 +1393,56 @@ class _Frame:
             except (AlgError, XArrayError, TypeError, ValueError, IndexError, KeyError, ZeroDivisionError) as e:
                 raise self.bad(f"call failed: {type(e).__name__}: {e}", n)
         raise self.bad(f"call of {fn!r} is not modelled", n)
+
+    def _singledispatch(self, fn, arg):
+        """functools.singledispatch: the implementation registered (in the module of the generic function) for the type of the
+        first argument -- a class of the repository, a number, or an iterable; None selects the generic body"""
+        mi = fn.module
+        cands = []
+        for st in mi.tree.body:
+            if not isinstance(st, ast.FunctionDef):
+                continue
+            for d in st.decorator_list:
+                reg = d.func if isinstance(d, ast.Call) else d
+                if isinstance(reg, ast.Attribute) and reg.attr == "register" and isinstance(reg.value, ast.Name) and reg.value.id == fn.name:
+                    if isinstance(d, ast.Call) and d.args:
+                        t = d.args[0]
+                    else:
+                        t = st.args.args[0].annotation if st.args.args else None
+                    cands.append((t, st))
+        fr = _Frame(self.I, {}, mi.relpath, mi, None)
+
+        def kind(t):
+            if t is None:
+                return None
+            name = t.id if isinstance(t, ast.Name) else (t.attr if isinstance(t, ast.Attribute) else None)
+            if name in ("float", "int", "complex", "Number"):
+                return ("num", name)
+            if name in ("Iterable", "Sequence", "list", "tuple", "ndarray", "Collection"):
+                return ("iter", name)
+            try:
+                v = fr.ev(t)
+            except Uninterpretable:
+                return None
+            return ("cls", v) if isinstance(v, ClassInfo) else None
+
+        a = exact(arg)
+        best = None
+        for t, st in cands:
+            k = kind(t)
+            if k is None:
+                continue
+            if k[0] == "cls" and isinstance(a, XObj) and k[1] in a.cls.mro:
+                best = st
+                break
+            if k[0] == "num" and isinstance(a, (int, Fraction, float)) and not isinstance(a, bool) and best is None:
+                best = st
+            if k[0] == "iter" and isinstance(a, (XArray, list, tuple)) and best is None:
+                best = st
+        if best is None:
+            return None
+        finfo = FuncInfo(f"{mi.name}.{fn.name}[{best.lineno}]", mi, None, best, [])
+        return Closure(best, {}, self.I, mi.relpath, finfo=finfo)
 
     def np_call(self, path, args, kwargs, n):
         f = _NP_FUNCS.get(path)
@@ -1911,9 +1987,11 @@ def _np_isin(a, b, **kw):
     a = XArray.from_nested(a)
     bb = list(XArray.from_nested(b).data) if not isinstance(b, (set, frozenset)) else list(b)
     for x in list(a.data) + bb:
-        if isinstance(x, bool) or not isinstance(x, (int, Fraction)):
+        if isinstance(x, bool) or not isinstance(x, (int, Fraction, str, EnumVal)):
             raise XArrayError("np.isin needs concrete data: outside the table grammar")
-    return XArray(a.shape, [any(x == y for y in bb) for x in a.data])
+    key = lambda v: str(v.value) if isinstance(v, EnumVal) else v
+    bb = [key(y) for y in bb]
+    return XArray(a.shape, [any(key(x) == y for y in bb) for x in a.data])
 
 
 def _np_sign(a):
